@@ -404,6 +404,9 @@ type WFault struct {
 	Size int64  `json:"size"`
 	Got  int    `json:"got"` // bytes the destination really accepted
 	Pan  string `json:"pan"`
+	// the SAME SMF value written again to a healthy destination right after the failed write: "err" (an error: not judged),
+	// "ok" (nil, size = bytes accepted, bytes = the unfaulted output), "size", "differs", "panic: .."
+	Retry string `json:"retry"`
 }
 
 type WFaultRec struct {
@@ -460,12 +463,28 @@ func runWFault(rec *WFaultRec) {
 		for _, mode := range []string{"short", "next", "once", "shortwrite", "eof"} {
 			w := &budgetWriter{budget: k, mode: mode}
 			f := WFault{K: k, Mode: mode}
+			var s2 *smf.SMF
 			f.Pan = hx.Catch(func() {
-				s2 := execHistory(rec.Hist)
+				s2 = execHistory(rec.Hist)
 				sz, e := s2.WriteTo(w)
 				f.Err, f.Size = e != nil, sz
 			})
 			f.Got = w.got
+			f.Retry = "ok"
+			if f.Pan == "" && s2 != nil && (k%7 == 0 || k < 40) {
+				var again bytes.Buffer
+				var sz int64
+				var e error
+				if p := hx.Catch(func() { sz, e = s2.WriteTo(&again) }); p != "" {
+					f.Retry = "panic: " + p
+				} else if e != nil {
+					f.Retry = "err"
+				} else if sz != int64(again.Len()) {
+					f.Retry = "size"
+				} else if !bytes.Equal(again.Bytes(), buf.Bytes()) {
+					f.Retry = "differs"
+				}
+			}
 			rec.Faults = append(rec.Faults, f)
 		}
 	}
